@@ -108,4 +108,16 @@ def idDigits : Nat → Nat → Str → Str
 def idString (l : Nat) : Str :=
   if l = 0 then ['0'] else idDigits l l []
 
+/-! ### integers (`std::to_string` of an integral value) -/
+
+def decDigits : Nat → Nat → Str → Str
+  | 0, _, acc => acc
+  | f + 1, l, acc => if l = 0 then acc else decDigits f (l / 10) (Char.ofNat (48 + l % 10) :: acc)
+
+def natString (l : Nat) : Str := if l = 0 then ['0'] else decDigits l l []
+
+def intString : Int → Str
+  | .ofNat n => natString n
+  | .negSucc n => '-' :: natString (n + 1)
+
 end Cppcheck.DumpXml
